@@ -309,9 +309,9 @@ func (vf *VersionedFetcher) seekNext(c cid.Cid, topParent bool) error {
 		return NewErrVFetcherFailedToDecodeNode(err)
 	}
 
-	// only seekNext on parent if we have a HEAD link
-	if len(block.Heads) != 0 {
-		err := vf.seekNext(block.Heads[0].Cid, true)
+	// seekNext on every parent, a merged history has more than one HEAD link
+	for _, head := range block.Heads {
+		err := vf.seekNext(head.Cid, true)
 		if err != nil {
 			return err
 		}
@@ -395,8 +395,10 @@ func (vf *VersionedFetcher) merge(c cid.Cid) error {
 		}
 	}
 
+	// The heads of the replayed state belong to the transient store, not to the
+	// transaction of the request.
 	err = coreblock.ProcessBlock(
-		vf.ctx,
+		datastore.CtxSetTxn(vf.ctx, vf.store),
 		mcrdt,
 		block,
 		cidlink.Link{
@@ -407,9 +409,9 @@ func (vf *VersionedFetcher) merge(c cid.Cid) error {
 		return err
 	}
 
-	// handle subgraphs
-	for _, l := range block.AllLinks() {
-		err = vf.merge(l.Cid)
+	// handle subgraphs, the parents (heads) are queued by seekNext and merged exactly once from the queue
+	for _, l := range block.Links {
+		err = vf.merge(l.Link.Cid)
 		if err != nil {
 			return err
 		}
